@@ -48,18 +48,18 @@ Definition lock_after (e : ev) (l : lockst) : lockst :=
 (* one step of thread i, by kind *)
 Inductive kind (c : cconfig) (nc : call) (t : cthread) (l' : lockst) (m' : map_) (t' : cthread) : Prop :=
 | k_invoke : ccall t = None -> l' = clk c -> m' = cmp c -> ccall t' = Some nc -> cph t' = 0 ->
-    hold (base t') = hold (base t) -> snap (base t') = snap (base t) -> kind c nc t l' m' t'
+    hold (base t') = hold (base t) -> snap (base t') = snap (base t) -> clog t' = clog t -> kind c nc t l' m' t'
 | k_return cl : ccall t = Some cl -> returning t = true -> l' = clk c -> m' = cmp c -> ccall t' = None -> base t' = base t ->
     clog t' = clog t ++ [(cl, snap (base t), cfin t, result cl (cobs t) (cits t))] -> kind c nc t l' m' t'
 | k_quiet cl : ccall t = Some cl -> returning t = false -> l' = clk c -> ccall t' = Some cl -> cph t' = cph t ->
     hold (base t') = hold (base t) -> snap (base t') = snap (base t) ->
-    (m' = cmp c \/ exists lo, cnext t = Some (Wr lo)) -> kind c nc t l' m' t'
+    (m' = cmp c \/ exists lo, cnext t = Some (Wr lo)) -> clog t' = clog t -> kind c nc t l' m' t'
 | k_acquire cl md : ccall t = Some cl -> returning t = false -> cnext t = Some (Acq md) -> l' = lock_after (Acq md) (clk c) ->
     m' = cmp c -> ccall t' = Some cl -> cph t' = 1 -> hold (base t') = Some md -> snap (base t') = cmp c ->
-    writer (clk c) = false -> kind c nc t l' m' t'
+    writer (clk c) = false -> clog t' = clog t -> kind c nc t l' m' t'
 | k_release cl md : ccall t = Some cl -> returning t = false -> cnext t = Some (Rel md) -> l' = lock_after (Rel md) (clk c) ->
     m' = cmp c -> ccall t' = Some cl -> cph t' = 2 -> cfin t' = cmp c -> hold (base t') = None ->
-    snap (base t') = snap (base t) -> kind c nc t l' m' t'.
+    snap (base t') = snap (base t) -> clog t' = clog t -> kind c nc t l' m' t'.
 
 (* an event executed by a thread that holds no lock when the event is an acquisition *)
 Lemma cexec_kind c nc t cl e cd rs ch l' m' t' :
@@ -70,17 +70,17 @@ Proof.
   intros Ec Hret Hn Hacq Hex. unfold cexec in Hex. destruct e as [md|md|lo|lo|]; cbn [exec_ev] in Hex.
   - specialize (Hacq md eq_refl). destruct md.
     + destruct (negb (writer (clk c))) eqn:Ew; inversion Hex; subst; clear Hex.
-      * apply (k_acquire c nc t _ _ _ cl R); cbn [ccall cph base hold snap negb]; auto. apply negb_true_iff; auto.
-      * apply (k_quiet c nc t _ _ _ cl); cbn [ccall cph base hold snap]; auto. rewrite Hacq. reflexivity.
+      * apply (k_acquire c nc t _ _ _ cl R); cbn [ccall cph base hold snap negb clog]; auto. apply negb_true_iff; auto.
+      * apply (k_quiet c nc t _ _ _ cl); cbn [ccall cph base hold snap clog]; auto. rewrite Hacq. reflexivity.
     + destruct (negb (writer (clk c)) && (readers (clk c) =? 0)) eqn:Ew; inversion Hex; subst; clear Hex.
-      * apply andb_prop in Ew as [Ew _]. apply (k_acquire c nc t _ _ _ cl W); cbn [ccall cph base hold snap negb]; auto. apply negb_true_iff; auto.
-      * apply (k_quiet c nc t _ _ _ cl); cbn [ccall cph base hold snap]; auto. rewrite Hacq. reflexivity.
+      * apply andb_prop in Ew as [Ew _]. apply (k_acquire c nc t _ _ _ cl W); cbn [ccall cph base hold snap negb clog]; auto. apply negb_true_iff; auto.
+      * apply (k_quiet c nc t _ _ _ cl); cbn [ccall cph base hold snap clog]; auto. rewrite Hacq. reflexivity.
   - destruct md; inversion Hex; subst; clear Hex.
-    + apply (k_release c nc t _ _ _ cl R); cbn [ccall cph cfin base hold snap]; auto.
-    + apply (k_release c nc t _ _ _ cl W); cbn [ccall cph cfin base hold snap]; auto.
-  - inversion Hex; subst; clear Hex. apply (k_quiet c nc t _ _ _ cl); cbn [ccall cph base hold snap]; auto.
-  - inversion Hex; subst; clear Hex. apply (k_quiet c nc t _ _ _ cl); cbn [ccall cph base hold snap]; eauto.
-  - inversion Hex; subst; clear Hex. apply (k_quiet c nc t _ _ _ cl); cbn [ccall cph base hold snap with_code]; auto.
+    + apply (k_release c nc t _ _ _ cl R); cbn [ccall cph cfin base hold snap clog]; auto.
+    + apply (k_release c nc t _ _ _ cl W); cbn [ccall cph cfin base hold snap clog]; auto.
+  - inversion Hex; subst; clear Hex. apply (k_quiet c nc t _ _ _ cl); cbn [ccall cph base hold snap clog]; auto.
+  - inversion Hex; subst; clear Hex. apply (k_quiet c nc t _ _ _ cl); cbn [ccall cph base hold snap clog]; eauto.
+  - inversion Hex; subst; clear Hex. apply (k_quiet c nc t _ _ _ cl); cbn [ccall cph base hold snap with_code clog]; auto.
 Qed.
 
 (* a thread that is about to acquire holds nothing (lock discipline of its remaining code) *)
@@ -99,7 +99,7 @@ Proof.
   unfold cstep. rewrite Hi. destruct (ccall t) as [cl|] eqn:Ec.
   - destruct (cur (base t)) as [|e cd] eqn:Ecur.
     + destruct (cinb t) eqn:Einb.
-      * do 3 eexists. split; [reflexivity|]. apply (k_quiet c nc t _ _ _ cl); cbn [ccall cph base]; auto.
+      * do 3 eexists. split; [reflexivity|]. apply (k_quiet c nc t _ _ _ cl); cbn [ccall cph base clog]; auto.
         unfold returning. rewrite Ec, Ecur, Einb. reflexivity.
       * destruct (rest (base t)) as [|[e|b] r] eqn:Er.
         -- do 3 eexists. split; [reflexivity|]. apply (k_return c nc t _ _ _ cl); cbn [ccall clog base]; auto.
@@ -110,12 +110,12 @@ Proof.
            apply (cexec_kind c nc t cl e [] r (choice_of i t nc) l' m' t' Ec Hret Hn); [intros md ->; eapply Hacq; eauto|exact Ex].
         -- assert (Hret : returning t = false) by (unfold returning; rewrite Ec, Ecur, Einb, Er; reflexivity).
            destruct (again_ cl (cobs t) (cit t)); do 3 eexists; (split; [reflexivity|]);
-             apply (k_quiet c nc t _ _ _ cl); cbn [ccall cph base with_code hold snap]; auto.
+             apply (k_quiet c nc t _ _ _ cl); cbn [ccall cph base with_code hold snap clog]; auto.
     + destruct (cexec (clk c) (cmp c) t e cd (rest (base t)) (choice_of i t nc)) as [[l' m'] t'] eqn:Ex. exists l', m', t'. split; [reflexivity|].
       assert (Hn : cnext t = Some e) by (unfold cnext; rewrite Ecur; reflexivity).
       assert (Hret : returning t = false) by (unfold returning; rewrite Ec, Ecur; reflexivity).
       apply (cexec_kind c nc t cl e cd (rest (base t)) (choice_of i t nc) l' m' t' Ec Hret Hn); [intros md ->; eapply Hacq; eauto|exact Ex].
-  - do 3 eexists. split; [reflexivity|]. apply k_invoke; cbn [ccall cph base with_code hold snap]; auto.
+  - do 3 eexists. split; [reflexivity|]. apply k_invoke; cbn [ccall cph base with_code hold snap clog]; auto.
 Qed.
 
 (* ---------------------------------------------------------------- what the invariant CInv says about the thread in each kind *)
